@@ -105,5 +105,23 @@ pub fn scenarios(tier: Tier) -> Vec<Scenario> {
             }
         }
     }
+    // two plain subscribers registered before the iterator leave concurrently
+    {
+        let mut prog = producers(Program::new(StoreSpec::new(1, 2, Pol::Block)), 1, 1, |_, id| Op::Dispatch(Act::new(id)));
+        prog = prog.thread("consumer", vec![Op::Iter { id: IT, take: None, extra: 1, signal: true }]);
+        prog = prog.thread("u1", vec![Op::Unsub(11)]);
+        prog = prog.thread("u2", vec![Op::Unsub(12)]);
+        prog = prog.main(vec![
+            Op::AddSub { id: 11, gated: false, reads: false },
+            Op::AddSub { id: 12, gated: false, reads: false },
+            Op::AddSub { id: D, gated: false, reads: false },
+            Op::SpawnAll,
+            Op::PassGate(2),
+            Op::JoinThese(vec!["p0", "u1", "u2"]),
+            Op::Stop,
+            Op::JoinAll,
+        ]);
+        v.push(scn("C14/leavers".to_string(), prog, if tier == Tier::Quick { 1 } else { 2 }, opts_elide(), move |r, _| check(r, None)));
+    }
     v
 }
